@@ -1,0 +1,25 @@
+//go:build verif
+// +build verif
+
+package osm
+
+import "sync/atomic"
+
+var verifHook atomic.Value // func(ev string, kind byte, id int64)
+
+// SetVerifHook installs a function that is called at the schedule points of
+// the extraction workers (between critical sections, never under a lock), so
+// that a monitor can record the interleaving and delay a worker at a chosen
+// point. Only present under the verif build tag. Pass nil to remove it.
+func SetVerifHook(f func(ev string, kind byte, id int64)) {
+	if f == nil {
+		f = func(string, byte, int64) {}
+	}
+	verifHook.Store(f)
+}
+
+func verifPoint(ev string, kind byte, id int64) {
+	if f, ok := verifHook.Load().(func(string, byte, int64)); ok {
+		f(ev, kind, id)
+	}
+}
